@@ -294,6 +294,12 @@ def fixed_histories():
         for t in (0, 0.0):
             yield {"steps": [["send", "hi"], ["close", 1000, b"", t], ["send", "after"], ["recv"]], "server": pol, "sock_timeout": 1.0}
             yield {"steps": [["srv_data", True], ["close", 1001, b"bye", t], ["close", 1000, b"", 1]], "server": pol, "sock_timeout": 1.0}
+    # every registered close status (and the ends of the private ranges) through close() and send_close(): the code on the wire is the one asked for
+    for code in list(range(1000, 1016)) + [2999, 3000, 3999, 4000, 4999, 5000]:
+        for op in ("close", "send_close"):
+            stp = [op, code, b"r%d" % code] + ([1] if op == "close" else [])
+            yield {"steps": [stp, ["recv"]], "server": {"close": ["reply", 0.0]}, "sock_timeout": 1.0}
+    for pol in POLICIES:
         for size in (70000, (1 << 20) + 1, 3 << 20):
             for frag in (False, True):
                 for reader in (["recv"], ["recv_data_frame"]):
